@@ -112,9 +112,7 @@ impl TcpStream {
         let res = syn_ack.await;
         // Past this point the future was not dropped while pending.
         pending.abandoned = false;
-        res.map_err(|_| {
-            io::Error::new(io::ErrorKind::ConnectionRefused, pair.remote.to_string())
-        })?;
+        res.map_err(|_| io::Error::new(io::ErrorKind::ConnectionRefused, pair.remote.to_string()))?;
 
         pending.armed = false;
 
